@@ -259,14 +259,6 @@ sexp sexp_thread_terminate (sexp ctx, sexp self, sexp_sint_t n, sexp thread) {
   sexp_assert_type(ctx, sexp_contextp, SEXP_CONTEXT, thread);
   /* terminate the thread and all children */
   for ( ; thread && sexp_contextp(thread); thread=sexp_context_child(thread)) {
-    /* if not already terminated set an exception status */
-    if (sexp_context_refuel(ctx) > 0) {
-      sexp_context_errorp(thread) = 1;
-      sexp_context_result(thread) =
-        sexp_global(ctx, SEXP_G_THREAD_TERMINATE_ERROR);
-      /* zero the refuel - this tells the scheduler the thread is terminated */
-      sexp_context_refuel(thread) = 0;
-    }
     /* unblock the thread if needed so it can be scheduled and terminated */
 #if SEXP_USE_VERIF_HOOKS
     sexp_verif_quiet++;
@@ -280,6 +272,15 @@ sexp sexp_thread_terminate (sexp ctx, sexp self, sexp_sint_t n, sexp thread) {
 #if SEXP_USE_VERIF_HOOKS
     sexp_verif_quiet--;
 #endif
+    /* if not already terminated set an exception status (after the */
+    /* unblocking above, which resets the status like thread-start!) */
+    if (sexp_context_refuel(thread) > 0) {
+      sexp_context_errorp(thread) = 1;
+      sexp_context_result(thread) =
+        sexp_global(ctx, SEXP_G_THREAD_TERMINATE_ERROR);
+      /* zero the refuel - this tells the scheduler the thread is terminated */
+      sexp_context_refuel(thread) = 0;
+    }
   }
 #if SEXP_USE_VERIF_HOOKS
   if (sexp_verif_tracing()) {
